@@ -110,6 +110,9 @@ def h_laws(d0: int, d1: int, d2: int, fail0: int, delay0: int, backoff: int, idl
     use_idle, use_init, use_change = c.get('idle', False), c.get('initial_delay', False), c.get('change', False)
     if not c.get('fail', True) and fail0:
         return True
+    d2 = 0                      # the duration of the last observed run is irrelevant (nothing follows it)
+    if c.get('short_runs'):
+        d1 = 0
     try:
         runs, state, changes = run_timer(interval, sharp, idle if use_idle else None, initial_delay if use_init else None,
                                          [d0, d1, d2], fail0, delay0, backoff if c.get('backoff', True) else None,
@@ -119,6 +122,7 @@ def h_laws(d0: int, d1: int, d2: int, fail0: int, delay0: int, backoff: int, idl
         return vkopf.verdict(False)
     ok = not state.get('overlap')
     t0 = state['spawned']
+    actual = list(runs)
     if len(runs) < 3:
         runs = runs + [runs[-1]] * (3 - len(runs))      # idle-only timers run once per change
         if interval is not None and len(set(runs)) < c.get('nruns', 3):
@@ -129,7 +133,7 @@ def h_laws(d0: int, d1: int, d2: int, fail0: int, delay0: int, backoff: int, idl
     if use_init and s0 < t0 + initial_delay:
         ok = False
     prev = None
-    for i, (s, e) in enumerate(runs[:c.get('nruns', 3)]):
+    for i, (s, e) in enumerate(actual[:c.get('nruns', 3)]):
         if prev is not None and s < prev[1]:
             ok = False                                    # never overlaps with itself
         if use_idle:
@@ -181,6 +185,8 @@ def obligations():
     obs.append(Ob('h_laws', {'interval': 3, 'sharp': False, 'initial_delay': True, 'fail': False}, timeout=2400, path_timeout=200))
     obs.append(Ob('h_laws', {'interval': 3, 'sharp': False, 'idle': True, 'fail': False}, timeout=2400, path_timeout=200,
                   twins=['idle_interval']))
+    obs.append(Ob('h_laws', {'interval': 3, 'sharp': False, 'idle': True, 'change': True, 'fail': False, 'short_runs': True}, timeout=1500,
+                  path_timeout=200))
     obs.append(Ob('h_laws', {'interval': 3, 'sharp': False, 'idle': True, 'change': True, 'fail': False}, timeout=3400,
                   path_timeout=200, tiers=('thorough',)))
     obs.append(Ob('h_laws', {'interval': 2, 'sharp': True, 'idle': True, 'change': True, 'fail': False}, timeout=3400,
